@@ -375,6 +375,11 @@ func (p *Plugin) Start(config pipeline.AnyConfig, params *pipeline.ActionPluginP
 	p.config = config.(*Config)
 	p.logger = params.Logger
 
+	// the buckets are a ring of buckets_count slots of bucket_interval each
+	if p.config.BucketInterval_ <= 0 || p.config.BucketsCount < 1 {
+		p.logger.Fatalf("bucket_interval must be positive and buckets_count at least 1: bucket_interval=%s buckets_count=%d", p.config.BucketInterval_, p.config.BucketsCount)
+	}
+
 	distrCfg := p.config.LimitDistribution.toInternal()
 	ld, err := parseLimitDistribution(distrCfg, p.config.DefaultLimit)
 	if err != nil {
